@@ -17,6 +17,7 @@ import (
 
 type vfEntry struct {
 	data float32
+	id   float32 // the value rows carry (id+0.25, id+0.5): values are never re-rotated
 	own  [vfMaxSeq]bool
 	pos  int32
 	live bool
@@ -140,10 +141,16 @@ func (h *vfHarness) forward(seqs []int) {
 	}
 	h.cache.SetLayer(0)
 	tensor, _ := h.ctx.FromFloatSlice(data, 1, 1, len(pos))
-	h.cache.Put(h.ctx, tensor, tensor)
+	// the value head is twice as wide as the key head (models with different K and V head sizes)
+	vdata := make([]float32, 2*len(pos))
+	for i := range data {
+		vdata[2*i], vdata[2*i+1] = data[i]+0.25, data[i]+0.5
+	}
+	vtensor, _ := h.ctx.FromFloatSlice(vdata, 2, 1, len(pos))
+	h.cache.Put(h.ctx, tensor, vtensor)
 	for i := range pos {
 		var e vfEntry
-		e.data, e.pos, e.live = data[i], pos[i], true
+		e.data, e.id, e.pos, e.live = data[i], data[i], pos[i], true
 		e.own[ss[i]] = true
 		g.e = append(g.e, e)
 	}
@@ -168,11 +175,13 @@ func (h *vfHarness) forward(seqs []int) {
 			}
 		}
 	}
-	out, _, mask := h.cache.Get(h.ctx)
+	out, vout, mask := h.cache.Get(h.ctx)
 	keys := out.Floats()
+	vals := vout.Floats()
 	m := mask.Floats()
 	n := len(keys)
 	verifAssert(len(m) >= len(pos)*n, "mask-covers-batch")
+	verifAssert(len(vals) == 2*n, "value-window-matches-key-window")
 	for i := range pos {
 		// every ghost entry visible to this token is exposed exactly once with its data,
 		// and nothing else is exposed
@@ -186,6 +195,9 @@ func (h *vfHarness) forward(seqs []int) {
 				e := &g.e[k]
 				if e.live && e.own[ss[i]] && e.pos <= pos[i] && (g.window == math.MaxInt32 || e.pos >= pos[i]-g.window) && e.data == keys[j] {
 					found++
+					if len(vals) == 2*n {
+						vfAssertClass(vals[2*j] == e.id+0.25 && vals[2*j+1] == e.id+0.5, "exposed-value-row-belongs-to-its-key", known)
+					}
 				}
 			}
 			vfAssertClass(found == 1, "exposed-entry-is-in-the-history", known)
@@ -230,6 +242,20 @@ func (h *vfHarness) remove(s int, b, e int32) {
 		verifAssert(err2 == nil, "full-remove-succeeds")
 		g.removeAll(s)
 		return
+	}
+	// Remove succeeded: it must not have re-positioned an entry that another sequence shares (the cache
+	// keeps one position per cell; the other sequence would see its entry move)
+	if e != math.MaxInt32 {
+		for i := range g.e {
+			x := &g.e[i]
+			if x.live && x.own[s] && x.pos >= e {
+				for o := range x.own {
+					if o != s && x.own[o] {
+						verifAssert(false, "remove-does-not-shift-an-entry-shared-with-another-sequence")
+					}
+				}
+			}
+		}
 	}
 	for i := range g.e {
 		x := &g.e[i]
